@@ -18,7 +18,8 @@ theorem new_ok_fields (logOdds : Rat → W) (Lx Ly Lz : Nat) (ax : Option String
     d.qubits = XCubeCode.qubits Lx Ly Lz ∧ d.stabs = XCubeCode.stabs Lx Ly Lz ∧
     d.H = (stabilizerMatrix (codeData Lx Ly Lz ax)).getD [] ∧
     d.zdec.H = d.H ∧ d.zdec.n = d.n ∧ d.zdec.px = px ∧ d.zdec.py = py ∧ d.zdec.pz = pz ∧
-    d.toric = ⟨toricView Ly Lz, toricView Lx Lz, toricView Lx Ly⟩ := by
+    d.toric = ⟨toricView Ly Lz, toricView Lx Lz, toricView Lx Ly⟩ ∧
+    d.planeSizes = planeSizesOf Lx Ly Lz := by
   unfold XCubeDec.new at h
   simp only at h
   repeat' split at h
